@@ -133,3 +133,47 @@ Example C01_unpacked_tuple :
   uk [] exP (VList [VInt 1; VStr "2024-01-02"; VStr "2024-01-03"; VBool true; VStr "z"]) (cu true t) = Ok v /\
   uk [] exP (VList [VInt 1; VBool true; VStr "z"]) (cu true t) = Ok (VTuple [VInt 1; VBool true; VStr "z"]).
 Proof. cbv zeta. repeat (match goal with |- _ /\ _ => split end); vm_compute; reflexivity. Qed.
+
+(* abstract and special collection classes: the decoder rebuilds the canonical concrete class
+   (Sequence -> list, Mapping -> dict, Deque -> deque, OrderedDict, defaultdict, MappingProxyType, Counter (int values),
+   ChainMap (wire form: the list of its maps; ChainMap() is ChainMap({}))) *)
+Example C01_collections :
+  let box b x := VObj (box_name b) [("", x)] in
+  let t := STupleFix [SBox BDeque (SSeq SIntT); SBox BOrdered (SMap SStrT (SSeq SIntT)); SBox BCounter (SMap SStrT SIntT);
+                      SBox BChain (SSeq (SMap SStrT SIntT)); SBox BChain (SSeq (SMap SStrT SIntT)); SBox BProxy (SMap SIntT SStrT)] in
+  let v := VTuple [box BDeque (VList [VInt 1; VInt 2]); box BOrdered (VDict [(VStr "b", VList [VInt 1]); (VStr "a", VList [])]);
+                   box BCounter (VDict [(VStr "x", VInt 2)]); box BChain (VList [VDict [(VStr "k", VInt 1)]; VDict []]);
+                   box BChain (VList []); box BProxy (VDict [(VInt 1, VStr "z")])] in
+  conf_ord [] v t = true /\ lossless t = true /\ vals_ok exP v = true /\
+  pk [] exP v (cp true t) =
+    Ok (VList [VList [VInt 1; VInt 2]; VDict [(VStr "b", VList [VInt 1]); (VStr "a", VList [])]; VDict [(VStr "x", VInt 2)];
+               VList [VDict [(VStr "k", VInt 1)]; VDict []]; VList [VDict []]; VDict [(VInt 1, VStr "z")]]) /\
+  (w <- pk [] exP v (cp true t) ;; uk [] exP w (cu true t)) = Ok v /\
+  (* the non-canonical representation of the empty ChainMap does not conform *)
+  conf [] (box BChain (VList [VDict []])) (SBox BChain (SSeq (SMap SStrT SIntT))) = false.
+Proof. cbv zeta. repeat (match goal with |- _ /\ _ => split end); vm_compute; reflexivity. Qed.
+
+(* leaf- and enum-typed mapping keys: Dict[date, int] and Dict[UUID, List[E]].  The hypothesis [vals_ok] asks,
+   for every dict in the value, that the wire forms of its keys be pairwise distinct (and, as for every leaf,
+   that parse (render k) = k): exactly what the round trip of the keys needs *)
+Example C01_leaf_keys :
+  let t := STupleFix [SDict (SLeaf "date") SIntT; SDict (SLeaf "UUID") (SList (SEnum "E"))] in
+  let v := VTuple [VDict [(VLeaf "date" "2024-01-02", VInt 1); (VLeaf "date" "2024-01-03", VInt 2)];
+                   VDict [(VLeaf "UUID" "0000-01", VList [VEnum "E" "A"; VEnum "E" "B"])]] in
+  conf_ord [] v t = true /\ lossless t = true /\ vals_ok exP v = true /\
+  pk [] exP v (cp true t) = Ok (VList [VDict [(VStr "2024-01-02", VInt 1); (VStr "2024-01-03", VInt 2)];
+                                       VDict [(VStr "0000-01", VList [VStr "A"; VStr "B"])]]) /\
+  (w <- pk [] exP v (cp true t) ;; uk [] exP w (cu true t)) = Ok v.
+Proof. cbv zeta. repeat (match goal with |- _ /\ _ => split end); vm_compute; reflexivity. Qed.
+
+(* ... and it is needed: with a rendering that identifies two keys present, the dict loses an entry *)
+Definition collP : prims := {|
+  p_render := fun k w => VStr "same"; p_parse := fun k v => Some "x"; p_enum_value := fun e m => Some (VStr m);
+  p_enum_of := fun e v => None; p_b64enc := fun b => b; p_b64dec := fun v => None;
+  p_int := fun _ => None; p_float := fun _ => None; p_str := fun _ => None |}.
+Example C01_leaf_keys_hypothesis_needed :
+  let t := SDict (SLeaf "date") SIntT in
+  let v := VDict [(VLeaf "date" "x", VInt 1); (VLeaf "date" "y", VInt 2)] in
+  conf_ord [] v t = true /\ lossless t = true /\ vals_ok collP v = false /\
+  pk [] collP v (cp true t) = Ok (VDict [(VStr "same", VInt 2)]).
+Proof. cbv zeta. repeat (match goal with |- _ /\ _ => split end); vm_compute; reflexivity. Qed.
